@@ -48,11 +48,10 @@ template<uint32_t W, uint32_t G0, uint32_t PID, uint32_t OPT, bool ALLOW_EMPTY_F
 template<uint32_t W> static void assert_pool1(const World<W>& w) {
   BState<W> s; snapshot<W>(s, w.b);
   V_ASSERT(w.pl->block_count == 1 && w.pl->blocks.first() == w.b && w.pl->blocks.last() == w.b && w.pl->cursor == w.b, "pool: block list and cursor unchanged");
-  V_ASSERT(w.im->tree._root == w.b && w.b->_tree_nodes[0] == 0 && w.b->_tree_nodes[1] == 0, "tree: unchanged");
+  V_ASSERT(w.im->tree._root == w.b && w.b->_tree_left == nullptr && w.b->_tree_right == nullptr, "tree: unchanged");
   V_ASSERT(w.pl->total_area_size[w.L] == 64 * W && w.pl->total_area_size[1 - w.L] == 0, "pool: reserved area = sum over blocks");
   V_ASSERT(w.pl->total_area_used[w.L] == s.area_used && w.pl->total_area_used[1 - w.L] == 0, "pool: used area = popcount of the used bits");
   V_ASSERT(w.pl->empty_block_count == ((s.flags & kFE) ? 1 : 0), "pool: empty_block_count = number of blocks flagged empty");
-  V_ASSERT(w.im->allocation_count == s.stop_count() - s.P(), "impl: allocation_count = stop bits minus padding");
   V_ASSERT(w.pl->total_overhead_bytes == block_overhead(64 * W), "pool: overhead = sum over blocks");
   V_ASSERT(lock_depth == 0 && lock_count == unlock_count, "lock released on return");
 }
@@ -105,15 +104,16 @@ template<uint32_t W, uint32_t G0, uint32_t PID, uint32_t OPT> static void check_
       V_ASSERT(was_free, "alloc: every granule handed out was free before");
       V_ASSERT(bits_ok, "alloc: exactly the span granules become used, stop bit at its last granule, nothing else changes");
       V_ASSERT(post.is_span_start(g) && post.span_end(g) == g + n, "alloc: the span is a live span of exactly n granules");
-      V_ASSERT(w.im->allocation_count == w.alloc_count_pre + 1, "alloc: one more allocation accounted");
+      V_ASSERT(w.im->allocation_count == w.alloc_count_pre + 1, "alloc: one more allocation accounted (one stop bit was set)");
+      V_ASSERT(post.area_used == w.pre.area_used + n, "alloc: area_used grows by the number of granules that became used (I c4)");
       V_ASSERT(vm_alloc_calls == 0, "alloc: no new mapping requested when the block has room");
       V_WITNESS("alloc-served");
       if ((w.pre.flags & kFI) == 0) V_WITNESS("alloc-served-by-search");
-      if (g + n > 64 && g < 64) V_WITNESS("alloc-crosses-word");
+      if constexpr (W > 1) { if (g + n > 64 && g < 64) V_WITNESS("alloc-crosses-word"); }
     } else {
       V_ASSERT(err == Error::kOutOfMemory, "alloc: refusal of the OS is reported as out of memory");
       V_ASSERT(same_bits<W>(w.pre, post), "alloc: failure leaves the bit vectors untouched");
-      V_ASSERT(w.im->allocation_count == w.alloc_count_pre, "alloc: failure accounts nothing");
+      V_ASSERT(w.im->allocation_count == w.alloc_count_pre && post.area_used == w.pre.area_used, "alloc: failure accounts nothing");
       V_ASSERT(span._rx == nullptr && span._size == 0 && span._block == nullptr, "alloc: failure returns an empty span");
       // reusability: a new mapping is only requested when no free run of n granules exists in the pool's block
       if (pid == PID) V_ASSERT(!w.pre.has_free_run(n), "alloc: new block only when no free run of the requested length exists");
@@ -159,20 +159,22 @@ template<uint32_t W, uint32_t G0, uint32_t PID, uint32_t OPT> static void check_
       bits_ok = bits_ok && post.U[i] == (w.pre.U[i] & ~m) && post.S[i] == (w.pre.S[i] & ~st);
     }
     V_ASSERT(bits_ok, "release: exactly the span granules become free, its stop bit is cleared, nothing else changes");
+    V_ASSERT(post.area_used == w.pre.area_used - n, "release: area_used shrinks by the number of granules freed (I c4)");
     V_ASSERT(post.has_free_run(n), "release: the freed run is free");
     V_ASSERT(!emptied || (post.flags & kFE), "release: a block that became empty is flagged empty");
     V_ASSERT(!(emptied && (w.options & kOptImmediate)), "release: immediate release does not retain an empty block");
     V_WITNESS("release-kept");
     if (emptied) V_WITNESS("release-emptied-kept");
-    if (g < 64 && e > 64) V_WITNESS("release-crosses-word");
+    if constexpr (W > 1) { if (g < 64 && e > 64) V_WITNESS("release-crosses-word"); }
   } else {
     V_ASSERT(emptied && (w.options & kOptImmediate), "release: the block is only unmapped when it became empty under immediate release");
     V_ASSERT(vm_release_calls == 1 && vm_released_rx == brx && vm_released_rw == brw && vm_released_size == bsz, "release: unmaps exactly the block mapping");
     V_ASSERT(w.im->tree._root == nullptr && w.pl->blocks.first() == nullptr && w.pl->blocks.last() == nullptr && w.pl->cursor == nullptr && w.pl->block_count == 0, "release: deleted block is unlinked from tree, list and cursor");
     V_ASSERT(w.pl->total_area_size[0] == 0 && w.pl->total_area_size[1] == 0 && w.pl->total_area_used[0] == 0 && w.pl->total_area_used[1] == 0 && w.pl->total_overhead_bytes == 0 && w.pl->empty_block_count == 0, "release: deleted block leaves no accounting behind");
-    V_WITNESS("release-deleted");
+    if constexpr ((OPT & kOptImmediate) != 0) V_WITNESS("release-deleted");
   }
 }
 HARNESS h_release_w1() { check_release<1, 64, 0, 0>(); }
 HARNESS h_release_w2() { check_release<2, 64, 0, 0>(); }
 HARNESS h_release_imm_w1() { check_release<1, 64, 0, kOptImmediate>(); }
+
